@@ -613,12 +613,14 @@ def run(ctx):
         def before_inline(self, ev, func, args, kwargs):
             if func.name == "_validate_gfa_field":
                 self.script.call("_validate_gfa_field", "gfapy.FormatError")
+                self.validated = True
                 return None
             if func.name in ("_field_or_default_datatype", "_field_datatype"):
                 return "Z"
             if func.name == "_set_existing_field" and args[0].label != "line":
                 return NotImplemented
             return NotImplemented
+        validated = False
 
         def method(self, ev, base, name, args, kwargs, node):
             if isinstance(base, Abs) and base.label == "gfa":
@@ -628,13 +630,22 @@ def run(ctx):
                     base.attrs["registry"].remove(args[0].label)
                     return None
                 if name == "_register_line":
-                    base.attrs["registry"].append(args[0].label)
+                    ln = args[0]
+                    # the registry reads the identifier of the line: a value
+                    # given as text is parsed then, with the validating
+                    # decoder at vlevel >= 1 -- unless it was validated
+                    nm = ln.attrs["_data"].get("sid")
+                    if ln.attrs["vlevel"] >= 1 and isinstance(nm, str) and \
+                            nm != "old" and not self.validated:
+                        self.script.call("parse-name-on-register",
+                                         "gfapy.FormatError")
+                    base.attrs["registry"].append(ln.label)
                     return None
             if isinstance(base, Abs) and name == "_set_existing_field":
                 return NotImplemented
             return NotImplemented
     for field, value, vl in itertools.product(
-            ("sid", "slen", "xx"), ("new", "taken", None), (0, 3)):
+            ("sid", "slen", "xx"), ("new", "taken", None), (0, 1, 2, 3)):
         def run_once(script, field=field, value=value, vl=vl):
             g = Abs(gfacls, label="gfa", registry=["line", "other"])
             other = Abs(SEG, label="other", _gfa=g, _virtual=False,
@@ -648,7 +659,9 @@ def run(ctx):
             return out, before, snapshot([g, ln]), out[2]
         judge(R, f_sef, "field=%s,value=%s,vlevel=%d" % (field, value, vl),
               enumerate_faults(run_once,
-                               {"_validate_gfa_field": "gfapy.FormatError"}))
+                               {"_validate_gfa_field": "gfapy.FormatError",
+                                "parse-name-on-register":
+                                    "gfapy.FormatError"}))
     flush()
     ctx.exhaustive[R] = True
 
